@@ -71,7 +71,10 @@ pub(crate) fn timedata_words(t: &TimeSnapshot, out: &mut Vec<u64>) {
     out.push(t.root_variance_cubic.to_bits());
     out.push(leap_code(t.leap_indicator));
     out.push(dur_units(t.accumulated_steps) as u64);
-    out.push(t.accumulated_steps_threshold.map_or(u64::MAX, |d| dur_units(d) as u64));
+    out.push(
+        t.accumulated_steps_threshold
+            .map_or(u64::MAX, |d| dur_units(d) as u64),
+    );
 }
 
 impl KalmanSourceMessage {
